@@ -60,6 +60,13 @@ TEMPLATES = [
     ("scalar", (1.3,), {}), ("scalars", (1.3, 0.7), {}), ("Ashape", (A3, (3, 1)), {}), ("Aintint", (M23, 0, 1), {}),
     ("condAB", (A3 > 1.2, A3, B3), {}), ("Aidx", (A3, onp.array([0, 2])), {}), ("AUB", (A3, U3, B3 + 1.0), {}),
 ]
+# special values in an argument that is NOT the differentiated one (exact zeros, ties with the differentiated argument): functions that
+# select between their arguments depending on another one (heaviside(x1, x2) returns x2 where x1 == 0) depend on the differentiated
+# argument only at such entries.  ONLY[tname] = the positions that are differentiated for that template (others hold the special values).
+Z3 = onp.array([0.0, 1.5, 0.0])
+SPECIAL_TEMPLATES = [("ZB", (Z3, B3), {}), ("AZ", (A3, Z3), {}), ("ZAB", (Z3, A3, B3), {})]
+ONLY = {"ZB": [1], "AZ": [0], "ZAB": [1, 2]}
+TEMPLATES = TEMPLATES + SPECIAL_TEMPLATES
 
 
 def float_out(y):
@@ -192,19 +199,29 @@ def sweep(shard, nshards):
         per_arity = {}
         for tname, args, kwargs in TEMPLATES:
             arity = sum(1 for a in args if (isinstance(a, onp.ndarray) and a.dtype.kind == "f") or isinstance(a, float))
-            if per_arity.get(arity, 0) >= 2:
+            special = tname in ONLY
+            uf = getattr(onp, name, None)
+            if isinstance(uf, onp.ufunc) and not is_method and len(args) > uf.nin:
+                continue          # positional arguments of a ufunc beyond its inputs are `out` arrays
+            if special:
+                arity = "special"
+                if is_method:
+                    continue
+            if per_arity.get(arity, 0) >= (4 if special else 2):
                 continue
             if tname == "AUB" and (is_method or isinstance(getattr(onp, name, None), onp.ufunc)):
                 continue          # a third positional array of a ufunc is its `out` argument
             positions = [i for i, a in enumerate(args) if isinstance(a, onp.ndarray) and a.dtype.kind == "f" or isinstance(a, float)]
             if is_method:
                 positions = [p for p in positions if p == 0]
+            if special:
+                positions = [p for p in positions if p in ONLY[tname]]
             if not positions:
                 continue
             # plain NumPy must accept the template
             try:
                 f0 = call_of(entry, args, kwargs, positions[0])
-                y0 = f0(args[positions[0]])
+                y0 = f0(fresh(args)[positions[0]])
             except Exception:
                 continue
             if float_out(y0) is None:
@@ -217,7 +234,7 @@ def sweep(shard, nshards):
             done_templates += 1
             per_arity[arity] = per_arity.get(arity, 0) + 1
             # one differentiated value feeding ALL float positions at once (several boxed arguments in one call)
-            if len(positions) >= 2 and not is_method:
+            if len(positions) >= 2 and not is_method and not special:
                 scales = [1.0, 1.1, 1.2, 1.3]
 
                 def fall(x, positions=positions, args=args, kwargs=kwargs):
